@@ -34,7 +34,7 @@ def gates(tier):
         "min_decided": {"A.counterexample(B)": 1500 * k, "A == B": 1500 * k, "A.min.dim": 1500 * k, "A.min(xs)": 10000 * k},
         "shapes": {c: 5 * k for c in ["pair:equivalent", "pair:different", "eq:rename", "eq:useless", "eq:split", "eq:zero-union",
                                       "eq:epsremoved", "neg_weight", "eps_arc", "empty_language", "no_final", "no_initial",
-                                      "fractional", "rank<dim"]},
+                                      "fractional", "rank<dim", "eq:useless-newsymbol"]},
         "min_events": {"min.proj_calls": 2000 * k},
         "min_hashseeds": 2,
     }
@@ -61,7 +61,8 @@ def gen_case(rng, spec):
         m["stop"] = []
     if rng.random() < 0.05:
         m["start"] = []
-    how = rng.choice(["rename", "useless", "split", "zero-union", "epsremoved", "diff-arc", "diff-final", "diff-extra", "diff-arc"])
+    how = rng.choice(["rename", "useless", "split", "zero-union", "epsremoved", "diff-arc", "diff-final", "diff-extra", "diff-arc",
+                      "diff-newsymbol", "useless-newsymbol"])
     return {"A": m, "how": how, "bseed": rng.randrange(1 << 30)}
 
 
@@ -130,6 +131,22 @@ def derive_B(case):
             B["stop"][0][1] = B["stop"][0][1] * Fr(1, 2)
         else:
             B["stop"] = [[0, Fr(1, 2)]]
+    elif how == "diff-newsymbol":
+        # B additionally accepts a string over a symbol that A never uses
+        B["n"] = n + 1
+        B["names"] = list(range(n + 1))
+        src = A["start"][0][0] if A["start"] else 0
+        if not A["start"]:
+            B["start"] = [[0, Fr(1, 2)]]
+        B["arcs"] = B["arcs"] + [[src, "z", n, Fr(1, 4)]]
+        B["stop"] = B["stop"] + [[n, Fr(1, 2)]]
+        B["alphabet"] = list(A["alphabet"]) + ["z"]
+    elif how == "useless-newsymbol":
+        # B has an arc over a new symbol into a dead state: same language, different syntactic alphabet
+        B["n"] = n + 1
+        B["names"] = list(range(n + 1))
+        B["arcs"] = B["arcs"] + [[rng.randrange(n), "z", n, Fr(1, 4)]]
+        B["alphabet"] = list(A["alphabet"]) + ["z"]
     elif how == "diff-extra":
         B["n"] = n + 1
         B["names"] = list(range(n + 1))
@@ -171,7 +188,7 @@ def run_case(case, ctx):
                 ctx.skip("case", "generator:non-dyadic-closure")
                 return
         DB = lib.dense_from_case(B, "Q")
-        dist = fsaref.distinguishing_string(DA, DB, alphabet=A["alphabet"])
+        dist = fsaref.distinguishing_string(DA, DB, alphabet=sorted(set(A["alphabet"]) | set(B.get("alphabet", []))))
         rank = fsaref.hankel_rank(DA)
     except fsaref.Singular:
         ctx.skip("case", "oracle-not-applicable:Singular")
@@ -224,6 +241,19 @@ def run_case(case, ctx):
                               {"word": list(x), "reported": [va, vb], "true": [ta, tb]})
             except (TypeError, ValueError) as e:
                 ctx.violated(APIS[0], "counterexample/malformed-result", case, {"result": repr(ce)[:200], "error": repr(e)})
+    # --- the other argument order (the test must be symmetric)
+    ok, ce2 = ctx.call(APIS[0], dict(case, order="B.counterexample(A)"), b.counterexample, a)
+    if ok:
+        if ce2 is None:
+            ctx.check(APIS[0], equivalent, "counterexample/none-for-different-automata/swapped", case,
+                      {"distinguishing_string": list(dist) if dist else dist})
+        elif equivalent:
+            ctx.violated(APIS[0], "counterexample/reported-for-equivalent-automata/swapped", case, {"result": repr(ce2)[:200]})
+        else:
+            ctx.held(APIS[0])
+    ok, eq2 = ctx.call(APIS[1], dict(case, order="B == A"), lambda: b == a)
+    if ok:
+        ctx.check(APIS[1], bool(eq2) == equivalent, "eq/disagrees-with-language-equality/swapped", case, {"b==a": bool(eq2), "equivalent": equivalent})
     # --- equality and hashing
     ok, eq = ctx.call(APIS[1], case, lambda: a == b)
     if ok:
